@@ -292,8 +292,11 @@ def run_accept(desc, res, add, feature_key, rng, init=None):
                         break
             add("accepted_solutions_shape_checked")
             if not ok_shapes:
-                res["violations"].append({"key": f"accepted_but_wrong_result_shape|feature={feature_key}", "what": f"features {feature_key}: solve returned {len(arrs)} arrays / period {bad_[0] if len(arrs) == desc['n_periods'] else '-'} has shape {bad_[1] if len(arrs) == desc['n_periods'] else '-'}; admissible layouts {bad_[2:] if len(arrs) == desc['n_periods'] else desc['n_periods']}"})
-                return "violation"
+                # recorded, not judged: the statement of C12 is about running to completion; the
+                # layout is C05's statement, which does not cover these unsupported shapes (a first
+                # version judged it and raised a false alarm on choice_only_filter+discrete_only)
+                add("accepted_solutions_with_unexpected_layout")
+                res.setdefault("localisation", []).append(f"features {feature_key}: solve returned {len(arrs)} arrays, first unexpected shape {bad_[1] if len(arrs) == desc['n_periods'] else '-'} (layouts derived from the layout contract: {bad_[2:] if len(arrs) == desc['n_periods'] else desc['n_periods']})")
         except Exception:  # noqa: BLE001 - shapes of exotic lattice models: not judged
             add("accepted_solutions_shape_not_judged")
     except Exception as e:  # noqa: BLE001
